@@ -42,6 +42,41 @@ PROPS = {
             "feature `cached` is on in the harness build: the role manager's own has_link cache is exercised by the differential run",
         ],
     },
+    "C01": {
+        "coq": "Properties/C01.v",
+        "pinchecks": ["PinChecks/PcBody_enf.v", "PinChecks/PcLiterals.v", "PinChecks/PcBody_fmacros.v", "PinChecks/PcEffector.v",
+                      "PinChecks/PcBody_fconvert.v", "PinChecks/PcBody_util.v"],
+        "gen": "c01",
+        "level_text": "Coq theorem c01_enforce_is_perm: for EVERY model store, matcher AST, function table, request (any arity/types), "
+                      "effect rule and flag the enforcement loop of the model equals the PERM reference (per-rule outcomes in stored order, "
+                      "effect-column mapping, declarative combination, an error counting only if reached; empty store = one evaluation with "
+                      "empty fields); corollaries no-false-grant/no-false-deny/grant-prefix. The model of the rhai fragment, of tokenisation "
+                      "and of the loop is tied to the real crate by a differential run over the documented model family + random matchers, "
+                      "with the matcher text produced by the Gallina printer, and by body-hash/literal pins",
+        "level_note": "trusted: Coq kernel, extraction, harness; modelled not verified: rhai's parser and evaluator on the expression fragment "
+                      "(operator precedence, cross-type comparison, lazy errors), serde->Dynamic conversion; string literals containing r./p. "
+                      "(escape_assertion rewrites them, D23) and non-ASCII text adjacent to r./p. are outside the generated family",
+        "explanation": "theorems c01_* (enforce = PERM reference); correspondence + predicate (implementation decision = extracted perm_ref) "
+                       "over model kinds x policies x links x requests",
+        "assumptions": [
+            "rhai evaluates the printed matcher text as the model's eval evaluates the AST (validated by the differential run only)",
+            "the role manager shared by all role definitions is part of the faithful model (cross-talk between g and g2 is property C19's finding)",
+        ],
+    },
+    "C17": {
+        "coq": "Properties/C17.v",
+        "pinchecks": ["PinChecks/PcBody_enf.v", "PinChecks/PcLiterals.v"],
+        "gen": "c17",
+        "level_text": "Coq theorem c17_ctx_eq_plain: for every suffix, every model whose suffixed r/p/e/m definitions are renamed copies "
+                      "(same rules under the suffixed policy type), every function state and every request, the context-qualified loop equals "
+                      "the plain loop (effect columns, both arity errors, empty-policy path, evaluation errors); proof by invariance of eval under "
+                      "consistent renaming of scope variables. The two loops are separately pinned to the source (body hashes, effect-token literal) "
+                      "and exercised differentially on duplicated models",
+        "level_note": "trusted: Coq kernel, extraction, harness; the model expresses the second loop as the first one parameterised by section keys and "
+                      "effect token, drift between the two Rust copies is caught by the body-hash pins and the differential run, not by the theorem",
+        "explanation": "theorem c17_ctx_eq_plain; predicate: enforce_with_context(k, rv) = enforce(rv) on duplicated models",
+        "assumptions": ["eval() rule-in-policy strings are outside the renamed-copy relation (they would need renaming too)"],
+    },
 }
 
 NOT_CLAIMED = {}
